@@ -171,7 +171,8 @@ def stage_w_depfix(rep, rng, n, sweep_len):
     texts += [''.join(rng.choice(alpha) for _ in range(rng.randint(0, 12))) for _ in range(n // 2)]
     from .gen import all_strings
     texts += all_strings(['a', ':', ' ', '\t', '\\', '\n', '#'], sweep_len)
-    texts = CORPUS_TEXT + load_corpus(rep) + texts
+    longs = [d_str(r) for r in common.model_batch([('depfix.gcc_depfile', [t, wd]) for t, wd in long_depfile_cases(rng, 100)[::9]])]
+    texts = CORPUS_TEXT + load_corpus(rep) + texts + longs      # long texts last: the vm_compute sample takes the first 200 calls
     calls, impl = [], []
     for t in texts:
         r = impl_emit(t)
@@ -908,8 +909,29 @@ def check_fixed_depfile(tgt, deps, text, d):
     return None
 
 
-def stage_oracle_depfix(rep, rng, n):
+def long_depfile_cases(rng, count):
+    """Dependency lists as long as real projects produce (several KiB, wrapped over many lines). The first name is
+    padded by 0..count-1 characters so that, across the family, a backslash-newline continuation (and an escaped
+    blank) lands on every offset modulo the usual buffer sizes (512 … 8192): implementations that read or tokenize
+    the depfile in chunks must still agree."""
+    base = [('inc lude/long_header_name_%03d.h' % i if i % 7 == 3 else 'include/some/deeper/dir/long_header_name_%03d.h' % i)
+            for i in range(rng.randint(70, 110))]
     cases = []
+    for pad in range(count):
+        deps = ['p' * pad + 'first.h'] + base
+        wd = []
+        col = 0
+        for i, dname in enumerate(deps):
+            wrap = col + len(dname) > 70          # gcc wraps at about 78 columns
+            col = len(dname) if wrap else col + len(dname) + 1
+            wd.append([bool(wrap and i > 0), dname])
+        cases.append(('obj/main.o', wd))
+    return cases
+
+
+def stage_oracle_depfix(rep, rng, n):
+    cases = list(long_depfile_cases(rng, 100))      # > the distance between two continuations: every alignment occurs
+    rep.count('oracle:long-depfiles', len(cases))
     for _ in range(n):
         tgt = gen_name(rng, None, OK_CLASSES)
         wd = gen_wdeps(rng, None, OK_CLASSES)
